@@ -76,9 +76,34 @@ static void add_board(const char *id, uint8_t pid) {
 	g_array_append_val(bidib_boards, b);
 }
 
+#if ENTRY == 99
+/* string converters on ARBITRARY NUL-terminated strings of up to STRN characters in an exact-size heap buffer */
+void harness(void) {
+	char *str = malloc(STRN + 1);
+	for (int i = 0; i < STRN; i++) str[i] = (char)ND_u8("ch");
+	str[STRN] = 0;
+	uint8_t b = 0; t_bidib_unique_id_mod uid; t_bidib_dcc_address da; t_bidib_peripheral_port po;
+	bool e1 = bidib_string_to_byte(str, &b);
+	bool e2 = bidib_string_to_uid(str, &uid);
+	bool e3 = bidib_string_to_dccaddr(str, &da);
+	bool e4 = bidib_string_to_port(str, &po);
+	size_t len = 0; while (str[len]) len++;
+	if (!e2) VASSERT(len == 16 && str[0] == '0' && str[1] == 'x', "a unique id is accepted only as 0x + 14 hex digits");
+	if (!e3 || !e4) VASSERT(len == 6 && str[0] == '0' && str[1] == 'x', "dcc address / port accepted only as 0x + 4 hex digits");
+	if (!e1) VASSERT(len > 0, "the empty string is no byte");
+	(void)b;
+	free(str);
+	VWITNESS();
+}
+#else
 void harness(void) {
 	yaml_parser_t parser;
+#ifndef NO_STATE_FREE
 	init_state();
+#else
+	bidib_boards = arr(sizeof(t_bidib_board));
+	bidib_trains = arr(sizeof(t_bidib_train));
+#endif
 	bool err = false;
 	int ctx_map[] = {1, 2};                  /* sections are entered inside a mapping that is an element of a sequence */
 	verif_yaml_enter(ctx_map, 2);
@@ -151,6 +176,9 @@ void harness(void) {
 	VASSERT(verif_yaml_open_events == 0, "every yaml event obtained is deleted exactly once");
 	VASSERT(verif_all_free(), "all locks released (a rejected configuration must not leave a lock behind)");
 	/* the caller's clean-up after success or failure (bidib_stop -> bidib_state_free) */
+#ifndef NO_STATE_FREE
 	bidib_state_free();
+#endif
 	VWITNESS();
 }
+#endif
